@@ -259,17 +259,52 @@ def _worker_run(binpath, lines, timeout_s, env=None):
     return results
 
 
+def build_binary():
+    """go build of the goalign CLI from REPO's working tree"""
+    t0 = time.time()
+    out_bin = os.path.join(BUILD, "goalign")
+    rc, out = run(["go", "build", "-o", out_bin, "."], cwd=REPO, env=goenv(), timeout=1200)
+    return rc == 0, out, time.time() - t0, out_bin
+
+
+def run_cli_case(c, timeout_s=20.0):
+    """ops named `cli*`: args[0] = stdin text with `|` for newline, args[1:] = argv of the goalign binary.
+    Result: `rc=<n> out=<stdout, newline as |>` (stderr is not part of the result)."""
+    binp = os.path.join(BUILD, "goalign")
+    stdin = c.args[0].replace("|", "\n")
+    if stdin == "_":
+        stdin = ""
+    try:
+        p = subprocess.run([binp] + c.args[1:], input=stdin.encode(), stdout=subprocess.PIPE,
+                           stderr=subprocess.PIPE, timeout=timeout_s)
+        out = p.stdout.decode("utf-8", "replace").replace("\t", " ").replace("\n", "|")
+        if p.returncode != 0:
+            out = ""      # error text is never compared, only the failing status
+        c.impl = "rc=%d out=%s" % (p.returncode, out)
+    except subprocess.TimeoutExpired:
+        c.impl = "hang"
+
+
 def run_impl(binpath, cases, timeout_s=5.0, nproc=None, env=None):
-    nproc = nproc or min(NCPU, max(1, len(cases) // 50))
     for i, c in enumerate(cases):
         c.id = i
+    cli = [c for c in cases if c.op.startswith("cli")]
+    if cli:
+        with ThreadPoolExecutor(min(NCPU, len(cli))) as ex:
+            list(ex.map(run_cli_case, cli))
+    allcases = cases
+    cases = [c for c in cases if not c.op.startswith("cli")]
+    if not cases:
+        return
+    nproc = nproc or min(NCPU, max(1, len(cases) // 50))
     chunks = [[] for _ in range(nproc)]
     for i, c in enumerate(cases):
         chunks[i % nproc].append((c.id, c.line()))
+    byid = {c.id: c for c in cases}
     with ThreadPoolExecutor(nproc) as ex:
         for res in ex.map(lambda ch: _worker_run(binpath, ch, timeout_s, env), chunks):
             for i, r in res.items():
-                cases[i].impl = r
+                byid[i].impl = r
 
 
 def run_oracle(cases, nproc=None):
@@ -484,6 +519,11 @@ def generic_check(mod, tier, seed):
         res.add_obligation("no-forbidden-tokens(sorry/admit/axiom/native_decide/bv_decide/...)", not toks, "audit", "; ".join(toks))
         hok, hout, _, binpath = build_harness()
         res.add_obligation("harness-builds-against-working-tree", hok, "tie", "" if hok else hout[-800:])
+        if getattr(mod, "NEEDS_BINARY", False):
+            cok, cout, _, _ = build_binary()
+            res.add_obligation("goalign-binary-builds-from-working-tree", cok, "tie", "" if cok else cout[-800:])
+            hok = hok and cok
+            hout = hout + cout
 
     names = {t["name"] for t in ths}
     for t in ths:
